@@ -1,0 +1,9 @@
+//go:build verif
+
+package util
+
+// Contracts for the snesvc verifier (/verif). Comment-only; compiled only with -tags verif.
+
+//@ func BankToLinear
+//@   property C05
+//@   ensures ret1 == ((addr >> 16) << 15) + (addr & 0x7FFF)
